@@ -26,6 +26,7 @@ type wireCase struct {
 	// Prev: another message of the same type that the SAME nas.Message value received just before this one (a receiver
 	// object kept per UE); what is decoded into it afterwards must be this message and nothing of the earlier one
 	Prev *wireCase `json:"received_before,omitempty"`
+	Twin bool      `json:"framing_twin,omitempty"` // derived by framingTwin from another well-formed message of the same length
 }
 
 func (c *wireCase) value() (*binding, *refnas.Value, error) {
@@ -272,6 +273,11 @@ func genWire(t *rapid.T) wireCase {
 	// a mixed 64-bit draw so that all 45 types get the same share of the cases
 	b := bs[drawIndex(t, len(bs), "msg")]
 	c := drawWire(t, b, nil)
+	if rapid.IntRange(0, 5).Draw(t, "twin") == 0 {
+		if tw, ok := framingTwin(b, c, rapid.IntRange(1, 3).Draw(t, "twin_k"), rapid.IntRange(0, 7).Draw(t, "twin_at")); ok {
+			return tw
+		}
+	}
 	if len(b.def.Opts) > 0 && rapid.IntRange(0, 3).Draw(t, "reused_receiver") == 0 {
 		p := drawWire(t, b, nil)
 		p.Perm = nil
@@ -290,4 +296,96 @@ func usable() []*binding {
 		}
 	}
 	return out
+}
+
+
+// framingTwin derives from a well-formed message another well-formed message of the SAME length that shares almost all
+// of its octets but is framed differently: one variable-length element (the last mandatory LV/LV-E element or an
+// optional TLV/TLV-E IE) is made k octets longer, so that it swallows the first k octets of what followed, and the
+// displaced remainder becomes the value of one optional TLV-E (or TLV) IE that the table allows later in the message.
+// All octets that were IEIs and length fields of the original — except the few rewritten ones — are now CONTENT at the
+// same offsets. A decoder that recognises a message by octets at fixed offsets is led astray by such twins; a decoder
+// that follows the length fields is not.
+func framingTwin(b *binding, c wireCase, k int, at int) (wireCase, bool) {
+	_, v, err := c.value()
+	if err != nil {
+		return c, false
+	}
+	sp, ref, err := b.spans(v)
+	if err != nil || len(sp) != len(b.def.Mand)+len(v.Opts) {
+		return c, false
+	}
+	// candidates: index into sp of a growable element
+	type cand struct{ spi int }
+	var cands []cand
+	lastMand := len(b.def.Mand) - 1
+	if lastMand >= 0 && (b.def.Mand[lastMand].Fmt == refnas.LV || b.def.Mand[lastMand].Fmt == refnas.LVE) {
+		cands = append(cands, cand{lastMand})
+	}
+	for i, o := range v.Opts {
+		j := b.optIndexByIEI(o.IEI)
+		if j >= 0 && (b.def.Opts[j].Fmt == refnas.TLV || b.def.Opts[j].Fmt == refnas.TLVE) && b.def.Opts[j].Unadjudicated == "" {
+			cands = append(cands, cand{len(b.def.Mand) + i})
+		}
+	}
+	if len(cands) == 0 {
+		return c, false
+	}
+	e := cands[at%len(cands)].spi
+	tail := ref[sp[e].to:]
+	if len(tail) < k+3 {
+		return c, false
+	}
+	tw := wireCase{Msg: c.Msg, Twin: true}
+	for i := range c.Mand {
+		tw.Mand = append(tw.Mand, append(hexBytes{}, c.Mand[i]...))
+	}
+	lastOptTable := -1
+	if e < len(b.def.Mand) {
+		lo, hi := b.mandRange(e)
+		nl := len(tw.Mand[e]) + k
+		if nl < lo || nl > hi {
+			return c, false
+		}
+		tw.Mand[e] = append(tw.Mand[e], tail[:k]...)
+	} else {
+		oi := e - len(b.def.Mand)
+		for i := 0; i <= oi; i++ {
+			tw.Opts = append(tw.Opts, wireIE{IEI: c.Opts[i].IEI, Val: append(hexBytes{}, c.Opts[i].Val...)})
+		}
+		j := b.optIndexByIEI(c.Opts[oi].IEI)
+		lo, hi := b.optRange(j)
+		nl := len(tw.Opts[oi].Val) + k
+		if nl < lo || nl > hi || len(legalLens(&b.def.Opts[j], lo, hi)) > 0 {
+			return c, false
+		}
+		tw.Opts[oi].Val = append(tw.Opts[oi].Val, tail[:k]...)
+		for i := 0; i <= oi; i++ {
+			if t := b.optIndexByIEI(c.Opts[i].IEI); t > lastOptTable {
+				lastOptTable = t
+			}
+		}
+	}
+	// the wrapper: a later optional IE with a length field that can hold the remainder
+	rest := tail[k:]
+	for x := lastOptTable + 1; x < len(b.def.Opts); x++ {
+		o := &b.def.Opts[x]
+		if (o.Fmt != refnas.TLVE && o.Fmt != refnas.TLV) || o.Unadjudicated != "" {
+			continue
+		}
+		n := len(rest) - o.Fmt.Overhead()
+		lo, hi := b.optRange(x)
+		if n < lo || n > hi || (o.Fmt == refnas.TLV && n > 255) || len(legalLens(o, lo, hi)) > 0 {
+			continue
+		}
+		tw.Opts = append(tw.Opts, wireIE{IEI: o.IEI, Val: append(hexBytes{}, rest[o.Fmt.Overhead():]...)})
+		// the twin must really be well-formed and of the same length
+		if _, tv, err := tw.value(); err == nil {
+			if _, tref, err := b.spans(tv); err == nil && len(tref) == len(ref) {
+				return tw, true
+			}
+		}
+		tw.Opts = tw.Opts[:len(tw.Opts)-1]
+	}
+	return c, false
 }
